@@ -366,6 +366,20 @@ def run(ctx):
                         text = None  # judged by the monitor (string entry); other entries: counted
                         if way != "string":
                             ctx.hit("entry:raised outside the hooked function")
+                if rep == 1 and i % 3 == 0:
+                    # between two exports the range of an input variable is edited by assigning its bounds directly (narrowed,
+                    # or collapsed to a single point): the next dataset is that of the engine as it is now
+                    iv = rnd.choice(engine.input_variables)
+                    if math.isfinite(float(iv.minimum)) and math.isfinite(float(iv.maximum)):
+                        lo_, hi_ = float(iv.minimum), float(iv.maximum)
+                        if (i // 3) % 3 == 0:
+                            iv.maximum = iv.minimum = round(0.5 * (lo_ + hi_), 3)
+                            ctx.hit("event:range of an input variable collapsed to a single point")
+                        elif rnd.random() < 0.5:
+                            iv.maximum = round(lo_ + 0.5 * (hi_ - lo_), 3)
+                        else:
+                            iv.minimum = round(lo_ + 0.25 * (hi_ - lo_), 3)
+                        ctx.hit("event:bounds of an input variable assigned between two exports")
                 if i < 2 and rep == 0 and text:
                     ctx.sample("scope", {"inputs": nin, "values": v, "scope": "each" if each else "all", "decimals": d, "first_lines": text.split("\n")[:4]})
         # an input variable and an output variable of one name (the measured and the commanded `level`): one column each
@@ -477,6 +491,7 @@ def run(ctx):
                 ctx.sample("reader", {"reader": text, "skip_lines": skip})
         probe.report(ctx)
         reach.report(ctx)
+    ctx.require("event:bounds of an input variable assigned between two exports", "event:range of an input variable collapsed to a single point")
     ctx.require("workload:input and output variable of one name", "workload:values generated for a subset of the input variables", "piece:subset of active variables")
     ctx.require("ranges held as integers", "reader:rows with output columns", "reader:ragged rows", "reader:row starting with a non-finite value", "reader:skip_lines left to its default", "workload:table of more than 4096 rows", "event:engine edited after loading, before export")
     ctx.require("hook:FldExporter.to_string_from_scope", "hook:FldExporter.to_string_from_reader", "scope:AllVariables", "scope:EachVariable", "scope:reader", "compare:outputs of a row", "piece:perfect power", "piece:between powers", "inputs:1", "inputs:2", "inputs:3", "inputs:4", "entry:file", "entry:writer")
